@@ -23,6 +23,10 @@ _STR_METHODS = (
     "join", "encode", "decode", "isdigit", "isalpha", "isalnum", "isspace", "find", "rfind", "index", "partition",
     "rpartition", "format", "title", "capitalize", "casefold", "splitlines", "zfill", "isupper", "islower",
 )
+_PURE_BUILTIN_NAMES = (
+    "len", "str", "int", "float", "bool", "all", "any", "tuple", "list", "sorted", "min", "max", "callable", "dict", "set", "frozenset",
+    "sum", "abs", "enumerate", "zip", "ord", "chr", "hex", "bin", "oct", "repr", "round", "divmod", "pow", "bytes", "bytearray", "hash",
+)
 _PURE_METHODS = {
     str: _STR_METHODS,
     bytes: _STR_METHODS + ("hex",),
@@ -60,12 +64,25 @@ class Bound(object):
         self.fn = fn
 
 
-class Raised(Exception):
-    """the interpreted code raises (exception class name in .name)"""
+class Raised(Unknown):
+    """the interpreted code raises (exception class name in .name); a rule that does not expect it
+    reads it as 'not decided' like any other Unknown"""
 
     def __init__(self, name):
-        Exception.__init__(self, name)
+        Unknown.__init__(self, "raises " + name)
         self.name = name
+
+
+def _exc_matches(raised_name, handler_names):
+    import builtins
+    rc = getattr(builtins, raised_name, None)
+    for hn in handler_names:
+        if hn == raised_name or hn in ("Exception", "BaseException"):
+            return True
+        hc = getattr(builtins, hn, None)
+        if isinstance(rc, type) and isinstance(hc, type) and issubclass(rc, hc):
+            return True
+    return False
 
 
 def instantiate(repo, module, cls, args=(), kwargs=None, depth=0):
@@ -216,7 +233,7 @@ class _Interp(object):
             except Raised as e:
                 for h in st.handlers:
                     names = [unparse(x) for x in (h.type.elts if isinstance(h.type, ast.Tuple) else [h.type])] if h.type is not None else [e.name]
-                    if e.name in names or "Exception" in names or "BaseException" in names:
+                    if _exc_matches(e.name, names):
                         self.block(h.body)
                         break
                 else:
@@ -376,7 +393,7 @@ class _Interp(object):
                     try:
                         r = getattr(base, f.attr)(*args, **kwargs)
                     except Exception as e:
-                        raise Unknown("method %s raised %s" % (f.attr, type(e).__name__))
+                        raise Raised(type(e).__name__)
                     if isinstance(base, dict) and f.attr in ("items", "keys", "values"):
                         return list(r)
                     return r
@@ -448,7 +465,20 @@ class _Interp(object):
                 raise Unknown("isinstance against %s" % tname)
             if f.id == "range":
                 return list(range(*args))
-            if f.id in ("len", "str", "int", "bool", "all", "any", "tuple", "list", "sorted", "min", "max", "callable", "dict", "set", "frozenset", "sum", "abs", "enumerate", "zip"):
+            if f.id == "next" and args and isinstance(args[0], list):
+                # generators are read as lists: next() is the first element (single use in ural)
+                if args[0]:
+                    return args[0][0]
+                if len(args) > 1:
+                    return args[1]
+                raise Raised("StopIteration")
+            if f.id in ("map", "filter") and len(args) == 2 and f.id not in self.module.bindings:
+                fn_, seq = args
+                call = (lambda x: self.call_value(fn_, [x], {})) if isinstance(fn_, (FuncRef, Bound, Native)) else fn_
+                if f.id == "map":
+                    return [call(x) for x in seq]
+                return [x for x in seq if (call(x) if call is not None else x)]
+            if f.id in _PURE_BUILTIN_NAMES and f.id not in self.module.bindings:
                 if f.id in ("enumerate", "zip"):
                     return list({"enumerate": enumerate, "zip": zip}[f.id](*args))
                 if f.id == "callable":
@@ -457,7 +487,7 @@ class _Interp(object):
                 try:
                     return getattr(builtins, f.id)(*args, **kwargs)
                 except Exception as e:
-                    raise Unknown("builtin raised %s" % e)
+                    raise Raised(type(e).__name__)
             ref = self.repo.resolve(self.module, f.id)
             ov = getattr(self.repo, "overrides", None)
             if ov and ref is not None and ref.qualname in ov:
